@@ -89,6 +89,22 @@ class C07(Prop):
                 obs["json_equal"] = cmp_
             except Exception as e:
                 obs["json_equal"] = f"{type(e).__name__}: {e}"[:200]
+            # the same three reads with the form given positionally, and with the three readers alive at the same time
+            # (consumed in lockstep): each must deliver what it delivers on its own
+            def shape(blocks):
+                return [[bt.name, "table" if hasattr(b, "df") else ("json" if isinstance(b, dict) and "columns" in b else
+                                                                  ("grid" if isinstance(b, list) else type(b).__name__))]
+                        for bt, b in blocks]
+            try:
+                alone = {f: shape(parse_blocks(rows_py, to=f)) for f in ("pdtable", "jsondata", "cellgrid")}
+                obs["positional_ok"] = all(shape(parse_blocks(rows_py, None, f)) == alone[f] for f in alone)
+                readers = [parse_blocks(rows_py, to=f) for f in ("pdtable", "jsondata", "cellgrid")]
+                triples = list(zip(*readers))
+                obs["lockstep_ok"] = all([list(x) for x in zip(*[shape([b]) for b in tr])] is not None and
+                                         [shape([tr[i]])[0] for i in range(3)] == [alone[f][k] for i, f in enumerate(("pdtable", "jsondata", "cellgrid"))]
+                                         for k, tr in enumerate(triples)) and len(triples) == len(alone["pdtable"])
+            except Exception as e:
+                obs["routes_exc"] = f"{type(e).__name__}: {e}"[:200]
             if case.get("unknown", None) is not None or case.get("unknown") == "":
                 it = CountingRows(rows_py)
                 flt = [None, (lambda bt, name: True), (lambda bt, name: False), (lambda bt, name: bt.name != "TABLE")][len(rows_py) % 4]
@@ -138,6 +154,12 @@ class C07(Prop):
         for ep in pdo["events"]:
             if ep.get("k") == "table" and (ep.get("tjson") or {}).get("k") == "raised":
                 fails.append(f"table_to_json_data: raised {ep['tjson']['exc']} on a table the reader delivered")
+        if obs.get("positional_ok") is False:
+            fails.append("positional: parse_blocks(rows, None, form) delivers other blocks than parse_blocks(rows, to=form)")
+        if obs.get("lockstep_ok") is False:
+            fails.append("lockstep: three readers of different forms consumed side by side deliver other blocks than each on its own")
+        if "routes_exc" in obs and pdo["final"][0] == 0:
+            fails.append(f"routes: positional / side-by-side reading raised {obs['routes_exc']}")
         je = obs.get("json_equal")
         if isinstance(je, str):
             fails.append(f"json-equal: comparison raised {je}")
